@@ -128,4 +128,44 @@ theorem dget_dupdate_map (f : String → PVal) (k : String) : ∀ (ks : List Str
         simp [hk, dget_dset_same]
       · simp [hk, hx, dget_dset_other _ _ _ _ hx]
 
+/-- the keys of a dictionary, in order -/
+def dkeys (d : Dict) : List String := d.map Prod.fst
+
+theorem dkeys_dset_new (k : String) (v : PVal) (d : Dict) (h : k ∉ dkeys d) :
+    dkeys (dset k v d) = dkeys d ++ [k] := by
+  induction d with
+  | nil => simp [dset, dkeys]
+  | cons kv d ih =>
+    obtain ⟨k', v'⟩ := kv
+    have hne : ¬ k' = k := fun e => h (by simp [dkeys, e])
+    have hd : k ∉ dkeys d := fun hm => h (by simp only [dkeys, List.map_cons, List.mem_cons]; exact Or.inr hm)
+    have := ih hd
+    simp only [dkeys] at this ⊢
+    simp [dset, hne, this]
+
+/-- updating with fresh, pairwise distinct keys appends exactly those keys, in order -/
+theorem dkeys_dupdate_map (f : String → PVal) : ∀ (ks : List String) (d : Dict),
+    ks.Nodup → (∀ k ∈ ks, k ∉ dkeys d) →
+    dkeys (dupdate d (ks.map (fun x => (x, f x)))) = dkeys d ++ ks := by
+  intro ks
+  induction ks with
+  | nil => intro d _ _; simp [dupdate]
+  | cons x ks ih =>
+    intro d hnd hfresh
+    have hx : x ∉ dkeys d := hfresh x (List.mem_cons_self ..)
+    have hnd' : ks.Nodup := (List.nodup_cons.mp hnd).2
+    have hxks : x ∉ ks := (List.nodup_cons.mp hnd).1
+    have hfresh' : ∀ k ∈ ks, k ∉ dkeys (dset x (f x) d) := by
+      intro k hk
+      rw [dkeys_dset_new _ _ _ hx]
+      intro hm
+      rcases List.mem_append.mp hm with h | h
+      · exact hfresh k (List.mem_cons_of_mem _ hk) h
+      · have : k = x := by simpa using h
+        exact hxks (this ▸ hk)
+    have := ih (dset x (f x) d) hnd' hfresh'
+    simp only [dupdate, List.map_cons, List.foldl_cons] at this ⊢
+    rw [this, dkeys_dset_new _ _ _ hx]
+    simp
+
 end Tsdate.Provenance
